@@ -277,4 +277,204 @@ class C19(Prop):
         return "use=%s aggregates=%s" % (w[0], depth if depth < 4 else "4+")
 
 
-PROPS = {p.id: p for p in [C06(), C19()]}
+# ---------------------------------------------------------------------------
+# C11: reference C conditional-group semantics, written independently of the Coq model
+# ---------------------------------------------------------------------------
+_M64 = (1 << 64) - 1
+
+
+class _CondErr(Exception):
+    pass
+
+
+def _c11_eval(words, env):
+    """C #if evaluation over unsigned 64-bit for the supported operators; raises _CondErr when malformed."""
+    toks = []
+    i = 0
+    while i < len(words):
+        w = words[i]
+        if w == "defined":
+            if i + 1 < len(words) and re.match(r"^[A-Za-z_]\w*$", words[i + 1]) and words[i + 1] not in ("true", "false"):
+                toks.append(1 if words[i + 1] in env else 0)
+                i += 2
+            elif i + 3 < len(words) and words[i + 1] == "(" and re.match(r"^[A-Za-z_]\w*$", words[i + 2]) and words[i + 3] == ")":
+                toks.append(1 if words[i + 2] in env else 0)
+                i += 4
+            else:
+                raise _CondErr()
+            continue
+        if re.match(r"^\d+u?$", w):
+            toks.append(int(w.rstrip("u")))
+        elif w == "true":
+            toks.append(1)
+        elif w == "false":
+            toks.append(0)
+        elif re.match(r"^[A-Za-z_]\w*$", w):
+            if w in env:
+                if env[w] is None:
+                    pass            # empty expansion
+                else:
+                    toks.append(env[w])
+            else:
+                toks.append(0)
+        elif w in ("(", ")", "!", "||", "&&", "==", "!=", "<", "<=", ">", ">="):
+            toks.append(w)
+        else:
+            raise _CondErr()
+        i += 1
+    pos = [0]
+
+    def peek():
+        return toks[pos[0]] if pos[0] < len(toks) else None
+
+    def unary():
+        t = peek()
+        if t == "!":
+            pos[0] += 1
+            return 0 if unary() else 1
+        if t == "(":
+            pos[0] += 1
+            v = binary(0)
+            if peek() != ")":
+                raise _CondErr()
+            pos[0] += 1
+            return v
+        if isinstance(t, int):
+            pos[0] += 1
+            return t & _M64
+        raise _CondErr()
+
+    levels = [["||"], ["&&"], ["==", "!="], ["<", "<=", ">", ">="]]
+
+    def binary(l):
+        if l == len(levels):
+            return unary()
+        v = binary(l + 1)
+        while peek() in levels[l] and not isinstance(peek(), int):
+            op = peek()
+            pos[0] += 1
+            r = binary(l + 1)
+            v = {"||": int(bool(v) or bool(r)), "&&": int(bool(v) and bool(r)), "==": int(v == r), "!=": int(v != r),
+                 "<": int(v < r), "<=": int(v <= r), ">": int(v > r), ">=": int(v >= r)}[op]
+        return v
+
+    v = binary(0)
+    if pos[0] != len(toks):
+        raise _CondErr()
+    return v != 0
+
+
+def _c11_reference(case):
+    """Expected output under C's rules, or None when the input is outside what the property states
+    (malformed condition somewhere, #else/#elif after #else)."""
+    lines = [l.split() for l in case.split(";") if l.split()]
+    env, out, stack = {}, [], []      # stack entries: [parent_active, taken, active, seen_else]
+
+    def active():
+        return all(s[2] for s in stack)
+
+    # pre-check: every condition must be well formed in *some* sense; we only judge cases where all are
+    for w in lines:
+        if w[0] in ("if", "elif"):
+            try:
+                _c11_eval(w[1:], {"A": 1, "B": 1, "C": 1, "D": 1, "U": 1, "Q": 1})
+            except _CondErr:
+                return None
+    for w in lines:
+        k = w[0]
+        if k in ("if", "ifdef", "ifndef"):
+            pa = active()
+            if not pa:
+                stack.append([False, True, False, False])
+                continue
+            if k == "if":
+                try:
+                    v = _c11_eval(w[1:], env)
+                except _CondErr:
+                    return None      # e.g. a macro with an empty body inside the condition
+            elif k == "ifdef":
+                v = w[1] in env
+            else:
+                v = w[1] not in env
+            stack.append([True, v, v, False])
+        elif k in ("elif", "else"):
+            if not stack:
+                return "ERR ElseNotMatched"
+            s = stack[-1]
+            if s[3]:
+                return None          # #else/#elif after #else: not a well-formed chain
+            if k == "else":
+                s[3] = True
+                v = True
+            else:
+                if s[0] and not s[1]:
+                    try:
+                        v = _c11_eval(w[1:], env)
+                    except _CondErr:
+                        return None
+                else:
+                    v = False
+            if s[0] and not s[1] and v:
+                s[1], s[2] = True, True
+            else:
+                s[2] = False
+        elif k == "endif":
+            if not stack:
+                return "ERR EndIfNotMatched"
+            stack.pop()
+        elif not active():
+            continue
+        elif k == "t":
+            out.append("x" + w[1])
+        elif k == "use":
+            if w[1] in env:
+                if env[w[1]] is not None:
+                    out.append(str(env[w[1]]))
+            else:
+                out.append(w[1])
+        elif k == "define":
+            env[w[1]] = int(w[2]) if len(w) > 2 else None
+        elif k == "undef":
+            env.pop(w[1], None)
+    if stack:
+        return "ERR ConditionChainNotFinished"
+    return " ".join(["OK"] + out)
+
+
+class C11(Prop):
+    id = "C11"
+    gens = ["GenCond"]
+    header = 0
+    n_quick = 3000
+    n_thorough = 40000
+    design_ref = "DESIGN.md §4 C11"
+    assumptions = [
+        "reference = Cond.v sem_item/sem_items/sem_tail (C's conditional groups over a well-nested tree) and ceval (unsigned 64-bit #if arithmetic)",
+        "model: coq/model/Cond.v mirrors ConditionChain, preprocess_command's gating and condition_parser.rs (hand-written; tied by correspondence); switch table, BinOp::apply and per-level operator tokens regenerated from the source",
+        "conditions reach the model pre-tokenised (words separated by blanks); lexing is C10's business",
+        "macros inside conditions restricted to object-like macros with one integer literal or an empty body (general expansion is C12)",
+        "#else/#elif after #else is outside the property's text: the model keeps the code's behaviour (accepted), the theorems and the oracle exclude it",
+    ]
+
+    def oracle(self, case, impl):
+        exp = _c11_reference(case)
+        if exp is None:
+            return None
+        if impl.startswith("PANIC"):
+            return "preprocessor panicked"
+        if exp != impl:
+            return "C semantics select %r, the preprocessor produced %r" % (exp, impl)
+        return None
+
+    def shrink_sep(self):
+        return " ; "
+
+    def nontrivial(self, case, impl):
+        return impl.startswith("OK") and ("if" in case)
+
+    def kind(self, case):
+        n = case.count(";") + 1
+        return "%s lines=%s" % (("ok" if "endif" in case else "open"), n if n <= 4 else ("5-8" if n <= 8 else ("9-20" if n <= 20 else "21+")))
+
+
+PROPS = {p.id: p for p in [C06(), C19(), C11()]}
